@@ -61,7 +61,7 @@ typedef hll_union_alloc<std::allocator<uint8_t>> union_t;
 static long g_live = 0;
 static bool g_cap_hit = false;
 static const size_t ALLOC_CAP = 256u << 20;
-static const unsigned CASE_TIMEOUT_S = 3;
+static const unsigned CASE_TIMEOUT_S = 5;
 
 static void* vh_alloc(size_t n) {
   if (n > ALLOC_CAP) { g_cap_hit = true; throw std::bad_alloc(); }
@@ -318,6 +318,11 @@ static std::string classify_death(int status, const std::string& errfile) {
       site = "@" + sym;
     }
   }
+  if (site.empty() && getenv("VH_DEBUG_DIR")) {
+    static int cnt = 0;
+    std::ofstream f(std::string(getenv("VH_DEBUG_DIR")) + "/nosite_" + std::to_string(getpid()) + "_" + std::to_string(cnt++) + ".txt");
+    f << "status=" << status << "\n" << err;
+  }
   if (err.find("AddressSanitizer") != std::string::npos) {
     std::string kind = grab("ERROR: AddressSanitizer: ");
     std::string rw = err.find("WRITE of size") != std::string::npos ? "-WRITE" : err.find("READ of size") != std::string::npos ? "-READ" : "";
@@ -329,7 +334,18 @@ static std::string classify_death(int status, const std::string& errfile) {
     size_t nl = msg.find('\n'); if (nl != std::string::npos) msg = msg.substr(0, nl);
     // drop the concrete numbers so that the signature is stable
     std::string m2; for (char ch : msg) { if (isdigit((unsigned char)ch) || ch == '-') continue; m2.push_back((ch == ' ' || ch == ',' || ch == '*' || ch == ':' || ch == '=') ? '_' : ch); }
-    return "ubsan:" + m2 + site;
+    // location: "<path>:<line>:<col>: runtime error:" is static data of the check (no symbolization needed): file basename
+    std::string loc;
+    {
+      size_t ls = err.rfind('\n', p); ls = (ls == std::string::npos) ? 0 : ls + 1;
+      std::string pre = err.substr(ls, p - ls);            // "/repo/hll/include/X.hpp:498:12: "
+      size_t c1 = pre.find(".hpp"); if (c1 == std::string::npos) c1 = pre.find(".h:");
+      if (c1 != std::string::npos) {
+        size_t e = pre.find(':', c1); size_t b = pre.rfind('/', c1);
+        loc = "@" + pre.substr(b == std::string::npos ? 0 : b + 1, (e == std::string::npos ? pre.size() : e) - (b == std::string::npos ? 0 : b + 1));
+      }
+    }
+    return "ubsan:" + m2 + (loc.empty() ? site : loc);
   }
   if (WIFSIGNALED(status)) {
     if (WTERMSIG(status) == SIGALRM) return "timeout";
@@ -565,6 +581,9 @@ static std::string step(const std::vector<std::string>& w) {
 }
 
 extern "C" void __sanitizer_print_stack_trace(void);
+// called by ASan when it has detected an error, before the report is printed: give the (symbolized) report time to be
+// written even on a loaded machine, so that the per-case watchdog cannot cut it short
+extern "C" void __asan_on_error() { alarm(60); }
 
 int main() {
   // Sanitizer reports of the forked children are symbolized in-process (libbacktrace); spawning llvm-symbolizer once per
